@@ -1,99 +1,362 @@
-(* C14 -- proofs about Model/Tree.v.
-   Part 1: lists / keys.  Part 2: the slot map (get/set/insert/remove/clear algebra, free-list invariant, shapes).
-   Part 3: the tree invariant WF and the refinement of the forest specification, operation by operation. *)
+(* C14 -- proofs about Model/Tree.v, part 3: the tree invariant WF and the refinement of the forest specification,
+   operation by operation. *)
 From Coq Require Import NArith List Bool Arith Lia PeanoNat.
-From TV Require Import Model.Tree.
+From TV Require Import Model.Tree Proofs.TreeLists Proofs.TreeSlotMap.
 Import ListNotations.
 
-Set Implicit Arguments.
+(* ------------------------------------------------------------------ the invariant *)
 
-(* ------------------------------------------------------------------ Part 1: keys and lists *)
+Record WF (t : tree) : Prop := mkWF {
+  wf_inv_n : sm_inv (t_nodes t);
+  wf_inv_c : sm_inv (t_children t);
+  wf_inv_p : sm_inv (t_parents t);
+  (* the three maps have identical key sets: same slots occupied, same versions, same free list *)
+  wf_shape_c : shape (t_children t) = shape (t_nodes t);
+  wf_shape_p : shape (t_parents t) = shape (t_nodes t);
+  (* child lists are duplicate free and every listed node points back *)
+  wf_down : forall p l, sm_get (t_children t) p = Some l ->
+                        NoDup l /\ forall c, In c l -> sm_get (t_parents t) c = Some (Some p);
+  (* every parent pointer is matched by a child-list entry *)
+  wf_up : forall c p, sm_get (t_parents t) c = Some (Some p) ->
+                      exists l, sm_get (t_children t) p = Some l /\ In c l
+}.
 
-Lemma key_eqb_spec (a b : key) : reflect (a = b) (key_eqb a b).
+Definition tlive (t : tree) (k : key) : Prop := sm_get (t_nodes t) k <> None.
+
+Lemma abs_live t k : In k (live (abs t)) <-> tlive t k.
+Proof. unfold abs, tlive. simpl. apply sm_keys_In'. Qed.
+
+Lemma live_children t k : WF t -> tlive t k -> exists l, sm_get (t_children t) k = Some l.
 Proof.
-  destruct a as [i v], b as [j w]. unfold key_eqb. simpl.
-  destruct (Nat.eqb_spec i j), (N.eqb_spec v w); simpl; constructor; congruence.
+  intros W H. apply (shape_live (t_children t) (t_nodes t) k (wf_shape_c t W)) in H.
+  destruct (sm_get (t_children t) k); [eauto | congruence].
 Qed.
 
-Lemma key_eqb_refl a : key_eqb a a = true.
-Proof. destruct (key_eqb_spec a a); congruence. Qed.
-
-Lemma key_eqb_sym a b : key_eqb a b = key_eqb b a.
-Proof. destruct (key_eqb_spec a b), (key_eqb_spec b a); congruence. Qed.
-
-Lemma key_eq_dec (a b : key) : {a = b} + {a <> b}.
-Proof. destruct (key_eqb_spec a b); auto. Qed.
-
-Ltac keq a b := destruct (key_eqb_spec a b); subst; try congruence.
-
-Lemma mem_In k l : mem k l = true <-> In k l.
+Lemma live_parents t k : WF t -> tlive t k -> exists pp, sm_get (t_parents t) k = Some pp.
 Proof.
-  unfold mem. rewrite existsb_exists. split.
-  - intros [x [Hx He]]. keq k x.
-  - intros H. exists k. split; auto. apply key_eqb_refl.
+  intros W H. apply (shape_live (t_parents t) (t_nodes t) k (wf_shape_p t W)) in H.
+  destruct (sm_get (t_parents t) k); [eauto | congruence].
 Qed.
 
-Lemma mem_false k l : mem k l = false <-> ~ In k l.
-Proof. rewrite <- mem_In. destruct (mem k l); split; congruence. Qed.
+Lemma children_live t k l : WF t -> sm_get (t_children t) k = Some l -> tlive t k.
+Proof. intros W H. apply (shape_live (t_children t) (t_nodes t) k (wf_shape_c t W)). congruence. Qed.
 
-(* upd *)
-Lemma upd_length A (l : list A) i x : length (upd l i x) = length l.
-Proof. revert i. induction l; destruct i; simpl; auto. Qed.
+Lemma parents_live t k pp : WF t -> sm_get (t_parents t) k = Some pp -> tlive t k.
+Proof. intros W H. apply (shape_live (t_parents t) (t_nodes t) k (wf_shape_p t W)). congruence. Qed.
 
-Lemma nth_error_upd_eq A (l : list A) i x : i < length l -> nth_error (upd l i x) i = Some x.
-Proof. revert i. induction l; destruct i; simpl; intros; try lia; auto. apply IHl. lia. Qed.
+Lemma kids_abs t k l : sm_get (t_children t) k = Some l -> kids (abs t) k = l.
+Proof. intros H. unfold abs. simpl. rewrite H. reflexivity. Qed.
 
-Lemma nth_error_upd_neq A (l : list A) i j x : i <> j -> nth_error (upd l i x) j = nth_error l j.
-Proof. revert i j. induction l; destruct i, j; simpl; intros; try congruence; auto. Qed.
-
-Lemma upd_map A B (f : A -> B) l i x : map f (upd l i x) = upd (map f l) i (f x).
-Proof. revert i. induction l; destruct i; simpl; auto. f_equal. auto. Qed.
-
-Lemma upd_same A (l : list A) i x : nth_error l i = Some x -> upd l i x = l.
-Proof. revert i. induction l; destruct i; simpl; intros; try congruence. f_equal. auto. Qed.
-
-Lemma nth_error_Some_lt A (l : list A) i x : nth_error l i = Some x -> i < length l.
-Proof. intros H. apply nth_error_Some. congruence. Qed.
-
-Lemma In_upd A (l : list A) i x y : In y (upd l i x) -> y = x \/ In y l.
-Proof. revert i. induction l; destruct i; simpl; intros; intuition. apply IHl in H0. intuition. Qed.
-
-Lemma upd_split A (l : list A) i x y : nth_error l i = Some y -> upd l i x = firstn i l ++ x :: skipn (S i) l.
-Proof. revert i. induction l; destruct i; simpl; intros; try congruence. f_equal. auto. Qed.
-
-Lemma nth_split A (l : list A) i y : nth_error l i = Some y -> l = firstn i l ++ y :: skipn (S i) l.
-Proof. revert i. induction l; destruct i; simpl; intros; try congruence. f_equal. auto. Qed.
-
-(* membership in the Vec results *)
-Lemma In_vec_insert A (l : list A) i x y : In y (vec_insert l i x) <-> y = x \/ In y l.
+Lemma live_mark_dirty t k : tlive t k -> mark_dirty t k = Ok tt.
 Proof.
-  unfold vec_insert. rewrite in_app_iff. simpl. rewrite <- (firstn_skipn i l) at 4. rewrite in_app_iff. intuition.
+  unfold tlive, mark_dirty. destruct (sm_get (t_nodes t) k) eqn:E; [|congruence]. intros _.
+  rewrite (sm_contains_get E). reflexivity.
 Qed.
 
-Lemma NoDup_vec_insert A (l : list A) i x : NoDup l -> ~ In x l -> NoDup (vec_insert l i x).
+(* listed nodes are live; a node is listed by at most one parent *)
+Lemma WF_listed_live t p l c : WF t -> sm_get (t_children t) p = Some l -> In c l -> tlive t c.
+Proof. intros W H Hc. destruct (wf_down t W p l H) as [_ Hd]. eapply parents_live; eauto. Qed.
+
+Lemma WF_disjoint t p q lp lq c : WF t ->
+  sm_get (t_children t) p = Some lp -> sm_get (t_children t) q = Some lq -> In c lp -> In c lq -> p = q.
 Proof.
-  intros Hn Hx. unfold vec_insert. rewrite <- (firstn_skipn i l) in Hn, Hx.
-  apply NoDup_remove_inv. 2: exact Hx. exact Hn.
+  intros W Hp Hq Hcp Hcq. destruct (wf_down t W p lp Hp) as [_ H1]. destruct (wf_down t W q lq Hq) as [_ H2].
+  specialize (H1 c Hcp). specialize (H2 c Hcq). congruence.
 Qed.
 
-Lemma NoDup_app_remove_mid A (a b : list A) x : NoDup (a ++ x :: b) -> NoDup (a ++ b) /\ ~ In x (a ++ b).
-Proof. apply NoDup_remove. Qed.
-
-Lemma NoDup_vec_remove A (l : list A) i : NoDup l -> NoDup (vec_remove l i).
+(* the derived parent of the specification is the stored parent pointer *)
+Lemma abs_parent t c pp : WF t -> sm_get (t_parents t) c = Some pp -> spec_parent (abs t) c = pp.
 Proof.
-  intros Hn. unfold vec_remove. destruct (nth_error l i) eqn:E.
-  - rewrite (nth_split l i E) in Hn. apply NoDup_remove in Hn. tauto.
-  - apply nth_error_None in E. rewrite firstn_all2, skipn_all2 by lia. rewrite app_nil_r. auto.
+  intros W H. unfold spec_parent. destruct (find (fun p => mem c (kids (abs t) p)) (live (abs t))) as [p'|] eqn:F.
+  - apply find_some in F. destruct F as [Hl Hm]. apply mem_In in Hm.
+    apply abs_live in Hl. destruct (live_children t p' W Hl) as [l' Hl'].
+    rewrite (kids_abs t p' l' Hl') in Hm. destruct (wf_down t W p' l' Hl') as [_ Hd].
+    specialize (Hd c Hm). congruence.
+  - destruct pp as [p|]; [|reflexivity]. exfalso.
+    destruct (wf_up t W c p H) as [l [Hl Hc]].
+    assert (Hp : In p (live (abs t))) by (apply abs_live; eapply children_live; eauto).
+    pose proof (find_none _ _ F p Hp) as Hn. cbv beta in Hn. rewrite (kids_abs t p l Hl) in Hn.
+    apply mem_false in Hn. tauto.
 Qed.
 
-Lemma In_vec_remove A (l : list A) i y : In y (vec_remove l i) -> In y l.
+Lemma detached_parents t c : WF t -> spec_live (abs t) c -> detached (abs t) c -> sm_get (t_parents t) c = Some None.
 Proof.
-  unfold vec_remove. rewrite in_app_iff. intros [H|H].
-  - eapply In_firstn; eauto. - eapply In_skipn; eauto.
+  intros W Hl Hd. apply abs_live in Hl. destruct (live_parents t c W Hl) as [pp Hp].
+  unfold detached in Hd. rewrite (abs_parent t c pp W Hp) in Hd. congruence.
 Qed.
 
-Lemma In_firstn A (l : list A) n y : In y (firstn n l) -> In y l.
-Proof. intros H. rewrite <- (firstn_skipn n l). apply in_or_app. auto. Qed.
+(* ------------------------------------------------------------------ generic steps for operations that allocate nothing *)
 
-Lemma In_skipn A (l : list A) n y : In y (skipn n l) -> In y l.
-Proof. intros H. rewrite <- (firstn_skipn n l). apply in_or_app. auto. Qed.
+(* rebuilding WF after the children / parents maps were updated in place *)
+Lemma WF_update t cm pm cx :
+  WF t ->
+  shape cm = shape (t_children t) -> sm_inv cm ->
+  shape pm = shape (t_parents t) -> sm_inv pm ->
+  (forall p l, sm_get cm p = Some l -> NoDup l /\ forall c, In c l -> sm_get pm c = Some (Some p)) ->
+  (forall c p, sm_get pm c = Some (Some p) -> exists l, sm_get cm p = Some l /\ In c l) ->
+  WF (mkTree (t_nodes t) cx cm pm).
+Proof.
+  intros W Hsc Hic Hsp Hip Hd Hu. constructor; simpl; auto.
+  - apply (wf_inv_n t W).
+  - rewrite Hsc. apply (wf_shape_c t W).
+  - rewrite Hsp. apply (wf_shape_p t W).
+Qed.
+
+Lemma equiv_update t cm pm cx (kids' : key -> list key) :
+  (forall k l, tlive t k -> sm_get cm k = Some l -> kids' k = l) ->
+  (forall k, tlive t k -> sm_get cm k <> None) ->
+  spec_equiv (abs (mkTree (t_nodes t) cx cm pm)) (mkSpec (live (abs t)) kids').
+Proof.
+  intros Hk Hl. unfold spec_equiv. simpl. split; [tauto|]. split; [reflexivity|].
+  intros k Hin. apply sm_keys_In' in Hin. specialize (Hl k Hin).
+  destruct (sm_get cm k) as [l|] eqn:E; [|congruence]. symmetry. apply Hk; auto.
+Qed.
+
+Lemma spec_equiv_refl s : spec_equiv s s.
+Proof. unfold spec_equiv. repeat split; tauto. Qed.
+
+(* attach a detached live node c under p: p's list becomes l' = l with c inserted somewhere *)
+Lemma attach_WF t p c l l' c1 p1 :
+  WF t -> sm_get (t_children t) p = Some l -> sm_get (t_parents t) c = Some None ->
+  sm_set (t_parents t) c (Some p) = Ok p1 -> sm_set (t_children t) p l' = Ok c1 ->
+  NoDup l' -> (forall x, In x l' <-> x = c \/ In x l) ->
+  WF (mkTree (t_nodes t) (t_ctx t) c1 p1).
+Proof.
+  intros W Hl Hc Hp1 Hc1 Hnd Hin.
+  assert (Hcl : ~ In c l).
+  { intros Hcl. destruct (wf_down t W p l Hl) as [_ Hd]. specialize (Hd c Hcl). congruence. }
+  apply WF_update; auto.
+  - apply (shape_set Hc1). - apply (sm_set_preserves_inv Hc1), (wf_inv_c t W).
+  - apply (shape_set Hp1). - apply (sm_set_preserves_inv Hp1), (wf_inv_p t W).
+  - intros q lq Hq. rewrite (sm_get_set q Hc1) in Hq. destruct (key_eqb_spec p q) as [<-|Hne].
+    + inversion Hq; subst lq. split; [exact Hnd|]. intros x Hx. rewrite (sm_get_set x Hp1).
+      destruct (key_eqb_spec c x) as [<-|Hcx]; [reflexivity|].
+      apply Hin in Hx. destruct Hx as [->|Hx]; [congruence|].
+      destruct (wf_down t W p l Hl) as [_ Hd]. apply Hd. exact Hx.
+    + destruct (wf_down t W q lq Hq) as [Hn Hd]. split; [exact Hn|]. intros x Hx. rewrite (sm_get_set x Hp1).
+      destruct (key_eqb_spec c x) as [<-|Hcx]; [|apply Hd; exact Hx].
+      specialize (Hd c Hx). congruence.
+  - intros x q Hx. rewrite (sm_get_set x Hp1) in Hx. destruct (key_eqb_spec c x) as [<-|Hcx].
+    + inversion Hx; subst q. exists l'. split; [apply (sm_get_set_same Hc1)|]. apply Hin. left. reflexivity.
+    + destruct (wf_up t W x q Hx) as [lq [Hq Hxq]]. rewrite (sm_get_set q Hc1).
+      destruct (key_eqb_spec p q) as [<-|Hne].
+      * exists l'. split; [reflexivity|]. apply Hin. right. congruence.
+      * exists lq. split; assumption.
+Qed.
+
+(* kids after replacing p's list *)
+Lemma equiv_set_list t p l' c1 pm cx :
+  WF t -> sm_set (t_children t) p l' = Ok c1 ->
+  spec_equiv (abs (mkTree (t_nodes t) cx c1 pm)) (mkSpec (live (abs t)) (kupd (kids (abs t)) p l')).
+Proof.
+  intros W Hc1. apply equiv_update.
+  - intros k l Hk Hg. rewrite (sm_get_set k Hc1) in Hg. unfold kupd. rewrite (key_eqb_sym k p).
+    destruct (key_eqb p k); [congruence|]. apply kids_abs. exact Hg.
+  - intros k Hk. rewrite (sm_get_set k Hc1). destruct (key_eqb p k); [congruence|].
+    destruct (live_children t k W Hk) as [l Hl]. congruence.
+Qed.
+
+(* ------------------------------------------------------------------ add_child / insert_child_at_index *)
+
+Definition refines (t : tree) (o : op) : Prop :=
+  exists t' out, step t o = Ok (t', out) /\ WF t' /\
+                 spec_equiv (abs t') (fst (spec_step (abs t) o (next_key t))) /\
+                 out = snd (spec_step (abs t) o (next_key t)).
+
+Lemma add_child_refines t p c : WF t -> pre (abs t) (OAddChild p c) -> refines t (OAddChild p c).
+Proof.
+  intros W [Hp [Hc Hd]]. pose proof (detached_parents t c W Hc Hd) as Hpc.
+  apply abs_live in Hp. destruct (live_children t p W Hp) as [l Hl].
+  destruct (sm_set_Ok (t_parents t) c (Some p)) as [p1 Hp1]; [congruence|].
+  destruct (sm_set_Ok (t_children t) p (l ++ [c])) as [c1 Hc1]; [congruence|].
+  assert (Hcl : ~ In c l).
+  { intros Hcl. destruct (wf_down t W p l Hl) as [_ Hdn]. specialize (Hdn c Hcl). congruence. }
+  exists (mkTree (t_nodes t) (t_ctx t) c1 p1), RUnit. split; [|split; [|split]].
+  - simpl. unfold add_child, sm_index. rewrite Hp1, Hl. simpl. rewrite Hc1. simpl.
+    rewrite (live_mark_dirty t p Hp). reflexivity.
+  - eapply attach_WF; eauto.
+    + apply NoDup_insert_mid with (b := []); rewrite app_nil_r; [apply (wf_down t W p l Hl) | exact Hcl].
+    + intros x. rewrite in_app_iff. simpl. intuition.
+  - cbn [spec_step fst]. rewrite (kids_abs t p l Hl). apply equiv_set_list; auto.
+  - reflexivity.
+Qed.
+
+Lemma insert_child_refines t p i c : WF t -> pre (abs t) (OInsertChild p i c) -> refines t (OInsertChild p i c).
+Proof.
+  intros W [Hp [Hc Hd]]. pose proof (detached_parents t c W Hc Hd) as Hpc.
+  apply abs_live in Hp. destruct (live_children t p W Hp) as [l Hl].
+  unfold refines. cbn [step spec_step]. unfold insert_child_at_index, sm_index. rewrite Hl. cbn [of_opt bind].
+  rewrite (kids_abs t p l Hl).
+  destruct (N.ltb (N.of_nat (length l)) i) eqn:Ei.
+  - exists t, (RErr p i (N.of_nat (length l))). cbn [fst snd].
+    split; [reflexivity|]. split; [exact W|]. split; [apply spec_equiv_refl | reflexivity].
+  - destruct (sm_set_Ok (t_parents t) c (Some p)) as [p1 Hp1]; [congruence|].
+    destruct (sm_set_Ok (t_children t) p (vec_insert l (N.to_nat i) c)) as [c1 Hc1]; [congruence|].
+    assert (Hcl : ~ In c l).
+    { intros Hcl. destruct (wf_down t W p l Hl) as [_ Hdn]. specialize (Hdn c Hcl). congruence. }
+    exists (mkTree (t_nodes t) (t_ctx t) c1 p1), RUnit. split; [|split; [|split]].
+    + rewrite Hp1. simpl. rewrite Hc1. simpl. rewrite (live_mark_dirty t p Hp). reflexivity.
+    + eapply attach_WF; eauto.
+      * apply NoDup_vec_insert; [apply (wf_down t W p l Hl) | exact Hcl].
+      * intros x. apply In_vec_insert.
+    + simpl. apply equiv_set_list; auto.
+    + reflexivity.
+Qed.
+
+(* ------------------------------------------------------------------ detaching: remove_child_at_index / remove_child / remove_children_range *)
+
+(* p's list shrinks from l to l' and the nodes D that left it get a None parent *)
+Lemma detach_WF t p l l' D c1 p1 :
+  WF t -> sm_get (t_children t) p = Some l ->
+  sm_set (t_children t) p l' = Ok c1 ->
+  shape p1 = shape (t_parents t) -> sm_inv p1 ->
+  (forall k, sm_get p1 k = if mem k D then Some None else sm_get (t_parents t) k) ->
+  NoDup l' -> (forall x, In x l <-> In x l' \/ In x D) -> (forall x, In x l' -> ~ In x D) ->
+  WF (mkTree (t_nodes t) (t_ctx t) c1 p1).
+Proof.
+  intros W Hl Hc1 Hsp Hip Hg Hnd Hin Hdis.
+  apply WF_update; auto.
+  - apply (shape_set Hc1).
+  - apply (sm_set_preserves_inv Hc1), (wf_inv_c t W).
+  - intros q lq Hq. rewrite (sm_get_set q Hc1) in Hq. destruct (key_eqb_spec p q) as [<-|Hne].
+    + inversion Hq; subst lq. split; [exact Hnd|]. intros x Hx. rewrite Hg.
+      destruct (mem x D) eqn:Em; [apply mem_In in Em; exfalso; eapply Hdis; eauto|].
+      destruct (wf_down t W p l Hl) as [_ Hd]. apply Hd. apply Hin. left. exact Hx.
+    + destruct (wf_down t W q lq Hq) as [Hn Hd]. split; [exact Hn|]. intros x Hx. rewrite Hg.
+      destruct (mem x D) eqn:Em; [|apply Hd; exact Hx].
+      apply mem_In in Em. exfalso. apply Hne. eapply (WF_disjoint t p q l lq x); eauto. apply Hin. right. exact Em.
+  - intros x q Hx. rewrite Hg in Hx. destruct (mem x D) eqn:Em; [discriminate|]. apply mem_false in Em.
+    destruct (wf_up t W x q Hx) as [lq [Hq Hxq]]. rewrite (sm_get_set q Hc1).
+    destruct (key_eqb_spec p q) as [<-|Hne].
+    + exists l'. split; [reflexivity|]. assert (lq = l) by congruence. subst lq. apply Hin in Hxq. tauto.
+    + exists lq. split; assumption.
+Qed.
+
+Lemma sm_set_as_mem {V} (m m' : slotmap V) k v : sm_set m k v = Ok m' ->
+  forall k', sm_get m' k' = if mem k' [k] then Some v else sm_get m k'.
+Proof.
+  intros H k'. rewrite (sm_get_set k' H). unfold mem. simpl. rewrite (key_eqb_sym k' k), orb_false_r. reflexivity.
+Qed.
+
+Lemma N_index_lt (l : list key) (i : N) : N.leb (N.of_nat (length l)) i = false -> N.to_nat i < length l.
+Proof. intros H. apply N.leb_gt in H. lia. Qed.
+
+Lemma remove_child_at_refines t p i : WF t -> pre (abs t) (ORemoveChildAt p i) -> refines t (ORemoveChildAt p i).
+Proof.
+  intros W Hp. cbn [pre] in Hp. apply abs_live in Hp. destruct (live_children t p W Hp) as [l Hl].
+  unfold refines. cbn [step spec_step]. unfold remove_child_at_index, sm_index. rewrite Hl. cbn [of_opt bind].
+  rewrite (kids_abs t p l Hl).
+  destruct (N.leb (N.of_nat (length l)) i) eqn:Ei.
+  - exists t, (RErr p i (N.of_nat (length l))). cbn [fst snd].
+    split; [reflexivity|]. split; [exact W|]. split; [apply spec_equiv_refl | reflexivity].
+  - pose proof (N_index_lt l i Ei) as Hlt.
+    destruct (nth_error l (N.to_nat i)) as [c|] eqn:En; [|apply nth_error_None in En; lia].
+    cbn [of_opt bind].
+    destruct (wf_down t W p l Hl) as [Hnd Hdn].
+    assert (Hcl : In c l) by (eapply nth_error_In; eauto).
+    destruct (sm_set_Ok (t_children t) p (vec_remove l (N.to_nat i))) as [c1 Hc1]; [congruence|].
+    destruct (sm_set_Ok (t_parents t) c None) as [p1 Hp1]; [rewrite (Hdn c Hcl); congruence|].
+    exists (mkTree (t_nodes t) (t_ctx t) c1 p1), (RKey c). split; [|split; [|split]].
+    + rewrite Hc1. cbn [bind]. rewrite Hp1. cbn [bind]. rewrite (live_mark_dirty t p Hp). reflexivity.
+    + eapply (detach_WF t p l (vec_remove l (N.to_nat i)) [c]); eauto.
+      * apply (shape_set Hp1).
+      * apply (sm_set_preserves_inv Hp1), (wf_inv_p t W).
+      * apply (sm_set_as_mem _ _ _ _ Hp1).
+      * apply NoDup_vec_remove. exact Hnd.
+      * intros x. rewrite (In_vec_remove_iff l _ c x Hnd En). simpl.
+        destruct (key_eq_dec x c) as [->|Hx]; intuition congruence.
+      * intros x Hx. rewrite (In_vec_remove_iff l _ c x Hnd En) in Hx. simpl. intuition congruence.
+    + cbn [fst]. apply equiv_set_list; auto.
+    + reflexivity.
+Qed.
+
+Lemma remove_child_refines t p c : WF t -> pre (abs t) (ORemoveChild p c) -> refines t (ORemoveChild p c).
+Proof.
+  intros W [Hp Hc]. pose proof Hp as Hp'. apply abs_live in Hp'. destruct (live_children t p W Hp') as [l Hl].
+  rewrite (kids_abs t p l Hl) in Hc.
+  destruct (In_position c l Hc) as [i Hi]. pose proof (position_Some c l i Hi) as Hn.
+  destruct (wf_down t W p l Hl) as [Hnd _].
+  destruct (remove_child_at_refines t p (N.of_nat i) W Hp) as [t' [out [Hs [W' [He Ho]]]]].
+  exists t', out. split; [|split; [exact W'|]].
+  - cbn [step] in *. unfold remove_child, sm_index. rewrite Hl. cbn [of_opt bind]. rewrite Hi. cbn [of_opt bind]. exact Hs.
+  - cbn [spec_step] in *. rewrite (kids_abs t p l Hl) in *. rewrite Nat2N.id in *.
+    assert (Elt : N.leb (N.of_nat (length l)) (N.of_nat i) = false).
+    { apply N.leb_gt. pose proof (nth_error_Some_lt Hn). lia. }
+    rewrite Elt, Hn in *. cbn [fst snd] in *. rewrite <- (vec_remove_retain l i c Hnd Hn). split; assumption.
+Qed.
+
+Lemma remove_range_refines t p a b : WF t -> pre (abs t) (ORemoveRange p a b) -> refines t (ORemoveRange p a b).
+Proof.
+  intros W [Hp [Hab Hb]]. apply abs_live in Hp. destruct (live_children t p W Hp) as [l Hl].
+  rewrite (kids_abs t p l Hl) in Hb.
+  unfold refines. cbn [step spec_step]. unfold remove_children_range, sm_index. rewrite Hl. cbn [of_opt bind].
+  rewrite (kids_abs t p l Hl).
+  assert (E : (N.ltb b a || N.ltb (N.of_nat (length l)) b)%bool = false).
+  { apply orb_false_iff. split; apply N.ltb_ge; assumption. }
+  rewrite E.
+  assert (Hab' : N.to_nat a <= N.to_nat b) by lia.
+  destruct (wf_down t W p l Hl) as [Hnd Hdn].
+  destruct (drain_facts l (N.to_nat a) (N.to_nat b) Hab' Hnd) as [F1 [F2 F3]].
+  destruct (sm_set_Ok (t_children t) p (vec_drain_rest l (N.to_nat a) (N.to_nat b))) as [c1 Hc1]; [congruence|].
+  destruct (sm_set_all_spec (vec_drained l (N.to_nat a) (N.to_nat b)) (t_parents t) None) as [p1 [Hp1 [Hg [_ Hi]]]].
+  { intros k Hk. rewrite (Hdn k); [congruence|]. apply F2. right. exact Hk. }
+  exists (mkTree (t_nodes t) (t_ctx t) c1 p1), RUnit. split; [|split; [|split]].
+  - rewrite Hc1. cbn [bind]. rewrite Hp1. cbn [bind]. rewrite (live_mark_dirty t p Hp). reflexivity.
+  - eapply (detach_WF t p l _ (vec_drained l (N.to_nat a) (N.to_nat b))); eauto.
+    + apply (shape_set_all _ _ _ _ Hp1).
+    + apply Hi, (wf_inv_p t W).
+  - cbn [fst]. apply equiv_set_list; auto.
+  - reflexivity.
+Qed.
+
+(* ------------------------------------------------------------------ replace_child_at_index *)
+
+Lemma replace_child_refines t p i c : WF t -> pre (abs t) (OReplaceChildAt p i c) -> refines t (OReplaceChildAt p i c).
+Proof.
+  intros W [Hp [Hc Hd]]. pose proof (detached_parents t c W Hc Hd) as Hpc.
+  apply abs_live in Hp. destruct (live_children t p W Hp) as [l Hl].
+  unfold refines. cbn [step spec_step]. unfold replace_child_at_index, sm_index. rewrite Hl. cbn [of_opt bind].
+  rewrite (kids_abs t p l Hl).
+  destruct (N.leb (N.of_nat (length l)) i) eqn:Ei.
+  - exists t, (RErr p i (N.of_nat (length l))). cbn [fst snd].
+    split; [reflexivity|]. split; [exact W|]. split; [apply spec_equiv_refl | reflexivity].
+  - pose proof (N_index_lt l i Ei) as Hlt.
+    destruct (nth_error l (N.to_nat i)) as [old|] eqn:En; [|apply nth_error_None in En; lia].
+    destruct (wf_down t W p l Hl) as [Hnd Hdn].
+    assert (Hol : In old l) by (eapply nth_error_In; eauto).
+    assert (Hcl : ~ In c l) by (intros Hcl; specialize (Hdn c Hcl); congruence).
+    assert (Hco : c <> old) by congruence.
+    destruct (sm_set_Ok (t_parents t) c (Some p)) as [p1 Hp1]; [congruence|].
+    destruct (sm_set_Ok (t_children t) p (upd l (N.to_nat i) c)) as [c1 Hc1]; [congruence|].
+    destruct (sm_set_Ok p1 old None) as [p2 Hp2].
+    { rewrite (sm_get_set old Hp1). destruct (key_eqb c old); [congruence|]. rewrite (Hdn old Hol). congruence. }
+    exists (mkTree (t_nodes t) (t_ctx t) c1 p2), (RKey old). split; [|split; [|split]].
+    + rewrite Hp1. cbn [bind of_opt]. rewrite Hc1. cbn [bind]. rewrite Hp2. cbn [bind].
+      rewrite (live_mark_dirty t p Hp). reflexivity.
+    + assert (Hg : forall x, sm_get p2 x = if key_eqb old x then Some None else if key_eqb c x then Some (Some p) else sm_get (t_parents t) x).
+      { intros x. rewrite (sm_get_set x Hp2), (sm_get_set x Hp1). reflexivity. }
+      apply WF_update; auto.
+      * apply (shape_set Hc1).
+      * apply (sm_set_preserves_inv Hc1), (wf_inv_c t W).
+      * rewrite (shape_set Hp2). apply (shape_set Hp1).
+      * apply (sm_set_preserves_inv Hp2), (sm_set_preserves_inv Hp1), (wf_inv_p t W).
+      * intros q lq Hq. rewrite (sm_get_set q Hc1) in Hq. destruct (key_eqb_spec p q) as [<-|Hne].
+        -- inversion Hq; subst lq. split; [eapply NoDup_upd; eauto|]. intros x Hx. rewrite Hg.
+           apply (In_upd_iff l _ old c x Hnd En) in Hx.
+           destruct (key_eqb_spec old x) as [<-|Hox]; [intuition congruence|].
+           destruct (key_eqb_spec c x) as [<-|Hcx]; [reflexivity|]. apply Hdn. intuition congruence.
+        -- destruct (wf_down t W q lq Hq) as [Hn Hd']. split; [exact Hn|]. intros x Hx. rewrite Hg.
+           destruct (key_eqb_spec old x) as [<-|Hox].
+           { exfalso. apply Hne. eapply (WF_disjoint t p q l lq old); eauto. }
+           destruct (key_eqb_spec c x) as [<-|Hcx]; [specialize (Hd' c Hx); congruence|]. apply Hd'. exact Hx.
+      * intros x q Hx. rewrite Hg in Hx. destruct (key_eqb_spec old x) as [<-|Hox]; [discriminate|].
+        rewrite (sm_get_set q Hc1). destruct (key_eqb_spec c x) as [<-|Hcx].
+        -- inversion Hx; subst q. rewrite key_eqb_refl. exists (upd l (N.to_nat i) c). split; [reflexivity|].
+           apply (In_upd_iff l _ old c c Hnd En). left. reflexivity.
+        -- destruct (wf_up t W x q Hx) as [lq [Hq Hxq]]. destruct (key_eqb_spec p q) as [<-|Hne].
+           ++ exists (upd l (N.to_nat i) c). split; [reflexivity|]. assert (lq = l) by congruence. subst lq.
+              apply (In_upd_iff l _ old c x Hnd En). right. split; [exact Hxq | congruence].
+           ++ exists lq. split; assumption.
+    + cbn [fst]. apply equiv_set_list; auto.
+    + reflexivity.
+Qed.
